@@ -196,3 +196,24 @@ def replay(payload: dict, monitors: list, *, with_calls: bool = False, pre_hook=
 def _tup(o):
     """JSON lists -> the tuple form ops use (nested pulse specs stay lists)."""
     return tuple(o)
+
+
+def run_plan(res, plan, monitors, *, with_calls=False, key_calls=False, pre_hook=None, max_transitions=None, engine_tag="seqx"):
+    """Run a list of (world_spec, alphabet, depth) explorations and accumulate coverage into `res`."""
+    cov = dict(states=0, transitions=0, traces_validated_against_impl=0, refused=0, worlds=[], samples=[], exhaustive=True)
+    for spec, alpha, depth in plan:
+        ex = explore(spec, alpha, depth, monitors, with_calls=with_calls, key_calls=key_calls, pre_hook=pre_hook,
+                     max_transitions=max_transitions, engine_tag=engine_tag)
+        cov["states"] += ex.states
+        cov["transitions"] += ex.transitions
+        cov["refused"] += ex.refused
+        cov["exhaustive"] &= ex.exhaustive
+        cov["worlds"].append(dict(world=spec["name"], depth=depth, alphabet=len(alpha), states=ex.states,
+                                  transitions=ex.transitions, refused=ex.refused, layers=ex.layers, wall=round(ex.wall, 1),
+                                  cap=ex.cap_note))
+        cov["samples"] += ex.samples
+        res.violations += ex.violations
+        for k, v in ex.activations.items():
+            res.activations[k] = res.activations.get(k, 0) + v
+    res.coverage.update(cov)
+    return cov
